@@ -63,10 +63,11 @@ Projection(e, o) ==
       /\ Chk("cdf-monotone-ends-at-one", NonDec(e.cdfI) /\ NonDec(e.cdfE) /\ e.cdfI[Len(e.cdfI)] = n /\ e.cdfE[Len(e.cdfE)] = n))
 
 \* an object restored from an image, continued in lock-step with its original under the same coins (C09, not REQ)
-TwinOK(e, o) == (Has(e, "twinOf") /\ o.fam # "req" /\ e.twinOf \in DOMAIN obj) =>
+TwinOK(e, o) == (Has(e, "twinOf") /\ e.twinOf \in DOMAIN obj) =>
   LET t == obj[e.twinOf] IN
+  \* the deterministic observables agree in every family (REQ's schedule does not depend on its coins; a restored REQ sketch draws new ones)
   /\ Chk("C09:twin-equal-scalars", o.n = t.n /\ o.k = t.k /\ o.est = t.est /\ o.nret = t.nret /\ o.minI = t.minI /\ o.maxI = t.maxI)
-  /\ Chk("C09:twin-equal-pairs", (o.pairs # NoObs /\ t.pairs # NoObs) => o.pairs = t.pairs)
+  /\ Chk("C09:twin-equal-pairs", (o.fam # "req" /\ o.pairs # NoObs /\ t.pairs # NoObs) => o.pairs = t.pairs)
 
 -----------------------------------------------------------------------------
 (* tier B: design-level shadow state *)
